@@ -1,13 +1,15 @@
 #!/bin/sh
-# tools/try_seeded.sh <seeded-dir> <check-id>...   applies the patch to /repo, runs the checks (evidence diverted), reverts.
+# tools/try_seeded.sh <seeded-dir> <check-id>...
+# Applies the patch to $REPO_DIR (default /repo), runs the checks of $VERIF_DIR (default /verif) with evidence diverted, reverts.
 # Prints one line per check: DETECTED / MISSED / TOOLERR.
+V=${VERIF_DIR:-/verif}; R=${REPO_DIR:-/repo}
 d=$1; shift
-cd /repo && git diff --quiet || { echo "/repo not clean"; exit 2; }
+cd $R && git diff --quiet || { echo "$R not clean"; exit 2; }
 git apply "$d/patch.diff" || { echo "patch does not apply: $d"; exit 2; }
-mkdir -p /verif/work/seeded-evidence
+mkdir -p $V/work/seeded-evidence
 for id in "$@"; do
-  (cd /verif && VERIF_EVIDENCE_DIR=/verif/work/seeded-evidence ./check $id --tier ${TIER:-quick} > /verif/work/seeded-$(basename $d)-$id.log 2>&1); rc=$?
+  (cd $V && VERIF_EVIDENCE_DIR=$V/work/seeded-evidence ./check $id --tier ${TIER:-quick} > $V/work/seeded-$(basename $d)-$id.log 2>&1); rc=$?
   case $rc in 1) r=DETECTED;; 0) r=MISSED;; *) r=TOOLERR;; esac
-  echo "$(basename $d) $id $r  $(grep -m1 -A1 '^VIOLATION' /verif/work/seeded-$(basename $d)-$id.log | tail -1 | cut -c1-160)"
+  echo "$(basename $d) $id $r  $(grep -m1 -A1 '^VIOLATION' $V/work/seeded-$(basename $d)-$id.log | tail -1 | cut -c1-160)"
 done
-git -C /repo checkout -- . && git -C /repo status --short | head -3
+git -C $R checkout -- . && git -C $R status --short | head -3
